@@ -246,3 +246,307 @@ Lemma nums_finite_member : forall k o v, nums_finite (JObj o) = true -> lookup_l
 Proof.
   intros k o v H L. apply lookup_last_in in L. cbn [nums_finite] in H. rewrite forallb_forall in H. apply (H (k, v) L).
 Qed.
+
+(** ** Every decoded value is well formed *)
+Lemma finite_dzero : finite dzero.
+Proof. eexists. vm_compute. reflexivity. Qed.
+
+Lemma decodeCrsURI_inv : forall o a c, decodeCrsURI o a = Some c ->
+  exists d u, c = CrsURI d u a /\ (exists r, parse_crs_uri u = Some r) /\ crs_description o = Some d.
+Proof.
+  intros o a c H. unfold decodeCrsURI in H. destruct (crs_description o) as [d|]; [|discriminate].
+  destruct (lookup_last "uri" o) as [[| | |u| |]|]; try discriminate.
+  destruct (parse_crs_uri u) as [r|] eqn:E; [|discriminate]. inversion H; subst. exists d, u. repeat split; eauto.
+Qed.
+
+Lemma decodeCrsWKT_inv : forall o c, decodeCrsWKT o = Some c ->
+  exists d w, c = CrsWKT d (canon_obj w) /\ lookup_last "wkt" o = Some (JObj w) /\ projjson_ok w = true.
+Proof.
+  intros o c H. unfold decodeCrsWKT in H. destruct (crs_description o) as [d|]; [|discriminate].
+  destruct (lookup_last "wkt" o) as [[| | | | |w]|]; try discriminate.
+  destruct (projjson_ok w) eqn:E; [|discriminate]. inversion H; subst. exists d, w. auto.
+Qed.
+
+Lemma decodeCrsRef_inv : forall o c, decodeCrsRef o = Some c ->
+  exists d r, c = CrsRef d (canon_obj r) /\ lookup_last "referenceSystem" o = Some (JObj r).
+Proof.
+  intros o c H. unfold decodeCrsRef in H. destruct (crs_description o) as [d|]; [|discriminate].
+  destruct (lookup_last "referenceSystem" o) as [[| | | | |r]|]; try discriminate.
+  inversion H; subst. exists d, r. auto.
+Qed.
+
+Lemma try_crs_wf : forall o a c, nums_finite (JObj o) = true -> (a = true -> crs_description o = Some "") ->
+  match decodeCrsURI o a with
+  | Some c => Ok c
+  | None => match decodeCrsWKT o with
+            | Some c => Ok c
+            | None => match decodeCrsRef o with Some c => Ok c | None => Error end
+            end
+  end = Ok c -> crs_wf c.
+Proof.
+  intros o a c HN HA H.
+  destruct (decodeCrsURI o a) as [c1|] eqn:E1.
+  - inversion H; subst. apply decodeCrsURI_inv in E1. destruct E1 as [d [u [E [HP HD]]]]. subst c. cbn [crs_wf].
+    split; auto. intro Ha. specialize (HA Ha). rewrite HA in HD. inversion HD. reflexivity.
+  - destruct (decodeCrsWKT o) as [c2|] eqn:E2.
+    + inversion H; subst. apply decodeCrsWKT_inv in E2. destruct E2 as [d [w [E [HL HP]]]]. subst c. cbn [crs_wf].
+      split; [rewrite projjson_ok_canon; exact HP|]. split; [apply canon_obj_idem|].
+      apply nums_finite_canon_obj. eapply nums_finite_member; eauto.
+    + destruct (decodeCrsRef o) as [c3|] eqn:E3; [|discriminate].
+      inversion H; subst. apply decodeCrsRef_inv in E3. destruct E3 as [d [r [E HL]]]. subst c. cbn [crs_wf].
+      split; [apply canon_obj_idem|]. apply nums_finite_canon_obj. eapply nums_finite_member; eauto.
+Qed.
+
+Theorem decodeCRS_wf : forall j c, nums_finite j = true -> decodeCRS j = Ok c -> crs_wf c.
+Proof.
+  intros j c HN H. unfold decodeCRS in H. destruct j as [| | |s| |o]; try discriminate.
+  - eapply try_crs_wf; [| |exact H]; [reflexivity|intros _; reflexivity].
+  - eapply try_crs_wf; [exact HN| |exact H]. intro; discriminate.
+Qed.
+
+(** tile matrices *)
+Lemma point_loop_finite : forall l i p0 p, point_loop l i p0 = CVal p ->
+  finite (fst p0) -> finite (snd p0) -> finite (fst p) /\ finite (snd p).
+Proof.
+  induction l as [|x r IH]; intros i p0 p H F1 F2; simpl in H.
+  - inversion H; subst. auto.
+  - destruct x; try discriminate.
+    + eapply IH; eauto.
+    + destruct (f64_dec d) as [q|] eqn:E; [|discriminate].
+      destruct i as [|[|i]]; try discriminate.
+      * eapply IH; eauto; cbn [fst snd]; auto. exists q; exact E.
+      * eapply IH; eauto; cbn [fst snd]; auto. exists q; exact E.
+Qed.
+
+Lemma conv_point_finite : forall v p, conv_point v = CVal p -> finite (fst p) /\ finite (snd p).
+Proof.
+  intros v p H. unfold conv_point in H. destruct v; try discriminate.
+  eapply point_loop_finite; eauto; apply finite_dzero.
+Qed.
+
+Lemma conv_float_cval_finite : forall v, is_hard (conv_float v) = false -> finite (cval (conv_float v) dzero).
+Proof.
+  intros v H. unfold conv_float in *. destruct v; simpl in *; try discriminate; try apply finite_dzero.
+  destruct (f64_dec d) as [q|] eqn:E; simpl in *; [exists q; exact E|discriminate].
+Qed.
+
+Lemma member_float_finite : forall k o, is_hard (member k conv_float o) = false -> finite (cval (member k conv_float o) dzero).
+Proof.
+  intros k o H. unfold member in *. destruct (lookup_last k o); [apply conv_float_cval_finite; exact H|apply finite_dzero].
+Qed.
+
+Theorem decodeTM_wf : forall o m, decodeTM o = Ok m -> tm_wf m.
+Proof.
+  intros o m H. unfold decodeTM in H.
+  destruct (is_panic (member "pointOfOrigin" conv_point o)) eqn:EP.
+  - cbn [andb] in H. destruct (_ || _) in H; discriminate.
+  - cbn [andb] in H.
+    match type of H with (if ?hs then _ else _) = _ => destruct hs eqn:EH end; [discriminate|].
+    apply orb_false_iff in EH. destruct EH as [EHard ESoft].
+    repeat (apply orb_false_iff in EHard; destruct EHard as [EHard ?]).
+    match type of H with (if tm_valid ?mm then _ else _) = _ => destruct (tm_valid mm) eqn:EV end; [|discriminate].
+    inversion H; subst. clear H. unfold tm_wf. split; [exact EV|].
+    cbn [tm_scaleDenominator tm_cellSize tm_origin].
+    split; [apply member_float_finite; assumption|]. split; [apply member_float_finite; assumption|].
+    unfold tm_valid in EV. cbn [tm_origin] in EV.
+    destruct (copt (member "pointOfOrigin" conv_point o)) as [p|] eqn:EO.
+    + exists p. split; [reflexivity|]. unfold copt in EO. unfold member in *.
+      destruct (lookup_last "pointOfOrigin" o) as [v|]; [|discriminate].
+      destruct (conv_point v) eqn:EC; try discriminate. inversion EO; subst. eapply conv_point_finite; eauto.
+    + exfalso. repeat (apply andb_true_iff in EV; destruct EV as [EV ?]). discriminate.
+Qed.
+
+Lemma insert_tm_in : forall k m l e, In e (insert_tm k m l) -> e = (k, m) \/ In e l.
+Proof.
+  intros k m l. induction l as [|[k' m'] r IH]; intros e H; simpl in H.
+  - destruct H as [H|[]]; auto.
+  - destruct (k =? k').
+    + destruct H as [H|H]; auto. right; right; exact H.
+    + destruct (k <? k').
+      * destruct H as [H|H]; auto.
+      * destruct H as [H|H]; [right; left; exact H|]. destruct (IH _ H); auto. right; right; assumption.
+Qed.
+
+Lemma insert_tm_ok : forall k m l, ms_ok l -> parse_int (tm_id m) = Some k -> ms_ok (insert_tm k m l).
+Proof.
+  intros k m l [HS HF] HP. induction l as [|[k' m'] r IH]; simpl.
+  - split; constructor; auto; constructor.
+  - apply StronglySorted_inv in HS. destruct HS as [HSr HSk].
+    assert (HFk := Forall_inv HF). assert (HFr := Forall_inv_tail HF).
+    destruct (Z.eqb_spec k k').
+    + subst k'. split; constructor; auto.
+    + destruct (Z.ltb_spec k k').
+      * split.
+        -- constructor; [constructor; auto|]. constructor; [exact H|].
+           rewrite Forall_forall in *. intros e He. specialize (HSk e He). unfold key_lt in *. cbn [fst] in *. lia.
+        -- constructor; auto.
+      * destruct (IH HSr HFr) as [IS IF]. split.
+        -- constructor; auto. rewrite Forall_forall in *. intros e He. apply insert_tm_in in He. destruct He as [He|He].
+           ++ subst e. unfold key_lt. cbn [fst]. lia.
+           ++ apply HSk; exact He.
+        -- constructor; auto.
+Qed.
+
+Lemma insert_tm_forall : forall (P : tileMatrix -> Prop) k m l, Forall (fun e => P (snd e)) l -> P m -> Forall (fun e => P (snd e)) (insert_tm k m l).
+Proof.
+  intros P k m l H Hm. rewrite Forall_forall in *. intros e He. apply insert_tm_in in He. destruct He as [He|He]; [subst e; exact Hm|auto].
+Qed.
+
+Theorem decodeTMs_wf : forall l acc ms, ms_ok acc -> Forall (fun e => tm_wf (snd e)) acc ->
+  decodeTMs l acc = Ok ms -> ms_ok ms /\ Forall (fun e => tm_wf (snd e)) ms.
+Proof.
+  induction l as [|x r IH]; intros acc ms HA HW H; simpl in H.
+  - inversion H; subst. auto.
+  - destruct x; try discriminate. destruct (decodeTM l) as [m| | |] eqn:ED; try discriminate. cbn [bind] in H.
+    destruct (parse_int (tm_id m)) as [k|] eqn:EP; [|discriminate].
+    eapply IH; [| |exact H].
+    + apply insert_tm_ok; assumption.
+    + apply insert_tm_forall; [assumption|]. eapply decodeTM_wf; eauto.
+Qed.
+
+(** streaming folds keep an invariant *)
+Lemma foldO_inv : forall {A S} (f : S -> A -> outcome S) (P : S -> Prop),
+  (forall s x s', P s -> f s x = Ok s' -> P s') ->
+  forall l s0 s, P s0 -> foldO f l s0 = Ok s -> P s.
+Proof.
+  intros A S f P Hstep. induction l as [|x r IH]; intros s0 s H0 H; simpl in H.
+  - inversion H; subst; exact H0.
+  - destruct (f s0 x) as [s1| | |] eqn:E; try discriminate. cbn [bind] in H. eapply IH; [|exact H]. eapply Hstep; eauto.
+Qed.
+
+Definition bb_inv (a : bbacc) : Prop :=
+  (forall p, ba_ll a = Some p -> finite (fst p) /\ finite (snd p)) /\
+  (forall p, ba_ur a = Some p -> finite (fst p) /\ finite (snd p)) /\
+  (forall v, ba_crs a = Some v -> nums_finite v = true).
+
+Lemma bb_step_inv : forall a kv a', bb_inv a -> bb_step a kv = Ok a' -> bb_inv a'.
+Proof.
+  intros a [k v] a' [I1 [I2 I3]] H. unfold bb_step in H.
+  destruct (String.eqb k "lowerLeft").
+  { destruct (conv_point v) as [p| | | |] eqn:E; try discriminate; inversion H; subst.
+    - split; [|split]; cbn [ba_ll ba_ur ba_crs]; [|exact I2|exact I3].
+      intros pp Hp. inversion Hp; subst. eapply conv_point_finite; eauto.
+    - split; [exact I1|split; [exact I2|exact I3]]. }
+  destruct (String.eqb k "upperRight").
+  { destruct (conv_point v) as [p| | | |] eqn:E; try discriminate; inversion H; subst.
+    - split; [|split]; cbn [ba_ll ba_ur ba_crs]; [exact I1| |exact I3].
+      intros pp Hp. inversion Hp; subst. eapply conv_point_finite; eauto.
+    - split; [exact I1|split; [exact I2|exact I3]]. }
+  destruct (String.eqb k "orderedAxes").
+  { destruct (conv_strs v); try discriminate; inversion H; subst; (split; [exact I1|split; [exact I2|exact I3]]). }
+  destruct (nums_finite v) eqn:EN; [|discriminate].
+  destruct (String.eqb k "crs"); inversion H; subst.
+  - split; [exact I1|split; [exact I2|]]. cbn [ba_crs]. intros v0 Hv. inversion Hv; subst. exact EN.
+  - split; [exact I1|split; [exact I2|exact I3]].
+Qed.
+
+Theorem decodeBBox_wf : forall j b, decodeBBox j = Ok b -> bbox_wf b.
+Proof.
+  intros j b H. unfold decodeBBox in H. destruct j as [| | | | |o]; try discriminate.
+  destruct (foldO bb_step o (MkBBAcc None None None None)) as [a| | |] eqn:EF; try discriminate. cbn [bind] in H.
+  assert (HI : bb_inv a).
+  { eapply (foldO_inv bb_step bb_inv bb_step_inv); [|exact EF]. repeat split; cbn; intros; discriminate. }
+  destruct HI as [I1 [I2 I3]].
+  destruct (ba_crs a) as [cj|] eqn:EC; [|discriminate].
+  destruct (decodeCRS cj) as [c| | |] eqn:ED; try discriminate. cbn [bind] in H.
+  destruct (ba_ll a) as [ll|] eqn:EL; [|discriminate]. destruct (ba_ur a) as [ur|] eqn:EU; [|discriminate].
+  assert (HC : crs_wf c) by (eapply decodeCRS_wf; [apply I3; reflexivity|exact ED]).
+  destruct (I1 _ eq_refl) as [F1 F2]. destruct (I2 _ eq_refl) as [F3 F4].
+  destruct (ba_axes a) as [ax|] eqn:EA.
+  - destruct (Nat.eqb (length ax) 2) eqn:EN; [|discriminate]. inversion H; subst.
+    unfold bbox_wf. cbn [bb_lowerLeft bb_upperRight bb_crs bb_orderedAxes]. repeat split; auto.
+    intros l Hl. inversion Hl; subst. apply Nat.eqb_eq. exact EN.
+  - inversion H; subst. unfold bbox_wf. cbn [bb_lowerLeft bb_upperRight bb_crs bb_orderedAxes]. repeat split; auto.
+    intros l Hl. discriminate.
+Qed.
+
+Definition top_inv (a : topacc) : Prop :=
+  (forall b, ta_bbox a = Some b -> bbox_wf b) /\ (forall v, ta_crs a = Some v -> nums_finite v = true).
+
+Lemma top_str_inv : forall v set a a', top_inv a -> (forall s, ta_bbox (set s) = ta_bbox a /\ ta_crs (set s) = ta_crs a) ->
+  top_str v set a = Ok a' -> top_inv a'.
+Proof.
+  intros v set a a' HI HS H. unfold top_str in H. destruct (conv_str v); try discriminate; inversion H; subst; auto.
+  destruct (HS a0) as [E1 E2]. unfold top_inv. rewrite E1, E2. exact HI.
+Qed.
+
+Lemma top_strs_inv : forall v set a a', top_inv a -> (forall s, ta_bbox (set s) = ta_bbox a /\ ta_crs (set s) = ta_crs a) ->
+  top_strs v set a = Ok a' -> top_inv a'.
+Proof.
+  intros v set a a' HI HS H. unfold top_strs in H. destruct (conv_strs v); try discriminate; inversion H; subst; auto.
+  destruct (HS a0) as [E1 E2]. unfold top_inv. rewrite E1, E2. exact HI.
+Qed.
+
+Lemma top_step_inv : forall a kv a', top_inv a -> top_step a kv = Ok a' -> top_inv a'.
+Proof.
+  intros a [k v] a' HI H. unfold top_step in H.
+  destruct (String.eqb k "id"). { eapply top_str_inv; [exact HI| |exact H]. intros; split; reflexivity. }
+  destruct (String.eqb k "title"). { eapply top_str_inv; [exact HI| |exact H]. intros; split; reflexivity. }
+  destruct (String.eqb k "description"). { eapply top_str_inv; [exact HI| |exact H]. intros; split; reflexivity. }
+  destruct (String.eqb k "keywords"). { eapply top_strs_inv; [exact HI| |exact H]. intros; split; reflexivity. }
+  destruct (String.eqb k "uri"). { eapply top_str_inv; [exact HI| |exact H]. intros; split; reflexivity. }
+  destruct (String.eqb k "orderedAxes"). { eapply top_strs_inv; [exact HI| |exact H]. intros; split; reflexivity. }
+  destruct (String.eqb k "wellKnownScaleSet"). { eapply top_str_inv; [exact HI| |exact H]. intros; split; reflexivity. }
+  destruct HI as [I1 I2].
+  destruct (String.eqb k "boundingBox").
+  { destruct (decodeBBox v) as [b| | |] eqn:E; try discriminate. cbn [bind] in H. inversion H; subst.
+    split; cbn [ta_bbox ta_crs]; auto. intros b0 Hb. inversion Hb; subst. eapply decodeBBox_wf; eauto. }
+  destruct (nums_finite v) eqn:EN; [|discriminate].
+  destruct (String.eqb k "crs").
+  { inversion H; subst. split; cbn [ta_bbox ta_crs]; auto. intros v0 Hv. inversion Hv; subst. exact EN. }
+  destruct (String.eqb k "tileMatrices"); inversion H; subst; split; cbn [ta_bbox ta_crs]; auto.
+Qed.
+
+Theorem decode_wf : forall j t, decodeTMS j = Ok t -> tms_wf t.
+Proof.
+  intros j t H. unfold decodeTMS in H. destruct j as [| | | | |o]; try discriminate.
+  destruct (foldO top_step o top_empty) as [a| | |] eqn:EF; try discriminate. cbn [bind] in H.
+  assert (HI : top_inv a).
+  { eapply (foldO_inv top_step top_inv top_step_inv); [|exact EF]. split; cbn; intros; discriminate. }
+  destruct HI as [I1 I2]. unfold decodeTop in H.
+  destruct (ta_crs a) as [cj|] eqn:EC; [|discriminate].
+  destruct (decodeCRS cj) as [c| | |] eqn:ED; try discriminate. cbn [bind] in H.
+  destruct (ta_tms a) as [[| | | |l|]|]; try discriminate.
+  destruct (decodeTMs l []) as [ms| | |] eqn:EM; try discriminate. cbn [bind] in H.
+  match type of H with (if tms_valid ?tt then _ else _) = _ => destruct (tms_valid tt) eqn:EV end; [|discriminate].
+  inversion H; subst. clear H.
+  assert (HM : ms_ok ms /\ Forall (fun e => tm_wf (snd e)) ms).
+  { eapply decodeTMs_wf; [| |exact EM]; [split; constructor|constructor]. }
+  destruct HM as [HM1 HM2].
+  unfold tms_wf. cbn [t_crs t_bbox t_matrices]. split; [exact EV|]. split; [eapply decodeCRS_wf; [apply I2; reflexivity|exact ED]|].
+  split; [exact I1|]. split; assumption.
+Qed.
+
+(** ** The general theorems *)
+Theorem decode_encode_decode_lemma : forall j t, decodeTMS j = Ok t -> tms_stable t ->
+  decodeTMS (encodeTMS t) = Ok (norm_tms t).
+Proof. intros j t H S. apply encode_decode; [eapply decode_wf; eauto|exact S]. Qed.
+
+(** a boolean check of [tms_stable], for use by computation *)
+Definition uint_stableb (n : Z) : bool := match conv_uint (jint n) with CVal z => z =? n | _ => false end.
+Definition vmw_stableb (v : vmw) : bool := uint_stableb (v_coalesce v) && uint_stableb (v_minTileRow v) && uint_stableb (v_maxTileRow v).
+Definition tm_stableb (m : tileMatrix) : bool :=
+  uint_stableb (tm_tileWidth m) && uint_stableb (tm_tileHeight m) && uint_stableb (tm_matrixWidth m) && uint_stableb (tm_matrixHeight m)
+  && match tm_vmw m with Some l => forallb vmw_stableb l | None => true end.
+Definition tms_stableb (t : tms) : bool := forallb (fun e => tm_stableb (snd e)) (t_matrices t).
+
+Lemma uint_stableb_spec : forall n, uint_stableb n = true -> uint_stable n.
+Proof.
+  intros n H. unfold uint_stableb, uint_stable in *. destruct (conv_uint (jint n)); try discriminate.
+  apply Z.eqb_eq in H. subst. reflexivity.
+Qed.
+
+Lemma tms_stableb_spec : forall t, tms_stableb t = true -> tms_stable t.
+Proof.
+  intros t H. unfold tms_stableb, tms_stable in *. rewrite forallb_forall in H. apply Forall_forall. intros e He.
+  specialize (H e He). unfold tm_stableb in H.
+  apply andb_true_iff in H. destruct H as [H H5]. apply andb_true_iff in H. destruct H as [H H4].
+  apply andb_true_iff in H. destruct H as [H H3]. apply andb_true_iff in H. destruct H as [H1 H2].
+  unfold tm_stable. repeat split; try (apply uint_stableb_spec; assumption).
+  intros l Hl. rewrite Hl in H5. rewrite forallb_forall in H5. apply Forall_forall. intros v Hv. specialize (H5 v Hv).
+  unfold vmw_stableb in H5. apply andb_true_iff in H5. destruct H5 as [H5 H8]. apply andb_true_iff in H5. destruct H5 as [H6 H7].
+  unfold vmw_stable. repeat split; apply uint_stableb_spec; assumption.
+Qed.
+
+Lemma builtin_stable_lemma : forallb (fun d => match decodeTMS (snd d) with Ok t => tms_stableb t | _ => false end) gen_tms_documents = true.
+Proof. vm_compute. reflexivity. Qed.
